@@ -4,7 +4,7 @@ from __future__ import annotations
 import ast
 
 from .. import astq, reference, smf, wire
-from ..absint import AbsRaise, AList, AObj, Opaque, SeqVar
+from ..absint import AbsRaise, AList, AObj, EVENT_LOG, Opaque, SeqVar
 from ..fold import ClassRef
 from ..model import AnalysisError, FuncInfo, unparse
 from ..wire import AFile, Field, StrSym, VLQ
@@ -336,4 +336,58 @@ def r17_nested(ctx):
                     construct=f'{mc.qname}::nested::{"exception" if fail else "normal"}')
 
 
-RULES = [('R17-scoping', r17_scoping), ('R17-nested', r17_nested), ('R17.2', r17_2), ('R17.4', r17_4)]
+def r17_text_specs(ctx):
+    """Every text meta type goes through the two helpers, in both directions and under the charset in force: bytes() makes
+    exactly one encode_string call on the text and emits its result as the payload; build_meta_message makes exactly one
+    decode_string call on the payload and stores its result - no codec call of its own, no sniffing, no post-processing."""
+    ai = make_interp(ctx)
+    cls = ctx.p.cls(META, 'MetaMessage')
+    o, mbytes = ctx.p.lookup_method(cls, 'bytes')
+    bm = ctx.fn(ctx.p.func(META, 'build_meta_message'))
+    reg = wire.meta_registry(ctx)
+    n = 0
+    for type_ in sorted(reference.TEXT_META):
+        attr = reference.META_SPECS[type_][1][0]
+        tb = reference.META_SPECS[type_][0]
+        spec = reg.get(type_)
+        w = f'{spec.module.relpath}:{spec.node.lineno} {spec.name}' if spec is not None else ctx.where(bm)
+        for charset in ('latin1', 'utf-16'):
+            n += 1
+            T = StrSym('T')
+            holder = {}
+
+            def thunk():
+                ai.global_store[KEY] = charset
+                m = wire.make_meta(ai, ctx, type_, {attr: T}, 0)
+                enc = ai.call_function(mbytes, [m], {})
+                holder['n_enc'] = [e for e in EVENT_LOG if e[0] == 'codec']
+                dec = ai.call_function(bm, [tb, AList([T.bytes], 'list'), 0], {})
+                holder['all'] = [e for e in EVENT_LOG if e[0] == 'codec']
+                return enc, dec
+            outs = ai.explore(thunk)
+            ai.global_store.pop(KEY, None)
+            inst = f'{type_} under {charset}'
+            cons = f'{spec.qname if spec is not None else bm.qname}::text-wiring'
+            if len(outs) != 1 or outs[0].kind != 'return':
+                ctx.fail('R17.3', inst, w, f'encoding then decoding a text message does not complete on one path: {outs}', construct=cons)
+                continue
+            enc, dec = outs[0].value
+            ev_enc, ev_all = holder['n_enc'], holder['all']
+            ok = len(ev_enc) == 1 and ev_enc[0][1] == 'encode' and ev_enc[0][2] == charset and isinstance(enc, AList) \
+                and len(enc.items) >= 4 and enc.items[3:] == [T.bytes]
+            ctx.require(ok, 'R17.3', f'encode({inst})', w,
+                        f'bytes() of a {type_} message makes codec calls {[(e[1], e[2]) for e in ev_enc]} and emits payload '
+                        f'{enc.items[3:] if isinstance(enc, AList) else enc!r}; expected one encode_string call under {charset!r} whose result is the payload',
+                        construct=cons + '::encode')
+            ev_dec = ev_all[len(ev_enc):]
+            got = dec.attrs.get(attr) if isinstance(dec, AObj) else None
+            ok = len(ev_dec) == 1 and ev_dec[0][1] == 'decode' and ev_dec[0][2] == charset and got is T
+            ctx.require(ok, 'R17.3', f'decode({inst})', w,
+                        f'decoding the payload makes codec calls {[(e[1], e[2]) for e in ev_dec]} and stores {got!r}; expected one decode_string call under '
+                        f'{charset!r} whose result is stored unchanged', construct=cons + '::decode')
+    ctx.floor('R17.3-text-specs', n, 16)
+    for q in ai.inlined:
+        ctx.functions.add(q)
+
+
+RULES = [('R17-text-specs', r17_text_specs), ('R17-scoping', r17_scoping), ('R17-nested', r17_nested), ('R17.2', r17_2), ('R17.4', r17_4)]
